@@ -754,16 +754,19 @@ def s6_compare(case):
         return 'diff', 'vcount impl %s model %s' % (hdr['vcount'], d['vcount'])
     zi = mt.index('z')
     want = {t.split(':')[0]: t.split(':')[1:] for t in mt[zi + 1:]}
+    def tyset(s):
+        # the lists of types to zero are sets: the implementation's may name a type twice (two later providers of it)
+        return ','.join(str(x) for x in sorted({int(x) for x in s.split(',') if x != '-'})) or '-'
     for f in fs:
         if f['inc'] != '1' or f['id'] not in want:
             continue
         zs = f['zs']; zin = f['zi']
         pos = int(fs.index(f))
         if pos < int(hdr['invokeIndex']):
-            if f['class'] == 'fallible-static-injector' and zs != want[f['id']][0]:
+            if f['class'] == 'fallible-static-injector' and tyset(zs) != tyset(want[f['id']][0]):
                 return 'diff', 'zero-if-skipped of %s impl %s model %s' % (f['id'], zs, want[f['id']][0])
         else:
-            if f['class'] in ('wrapper-func', 'fallible-injector') and zin != want[f['id']][1]:
+            if f['class'] in ('wrapper-func', 'fallible-injector') and tyset(zin) != tyset(want[f['id']][1]):
                 return 'diff', 'zero-if-inner-not-called of %s impl %s model %s' % (f['id'], zin, want[f['id']][1])
     return 'same', ''
 
@@ -909,12 +912,15 @@ def up_shadow_signature(c, fid):
                    for g in fs[:idx]):
             return False
     outs = {t for t in f['out'].split(',') if t != '-'}
-    for g in fs[idx + 1:]:
+    for gi in range(idx + 1, len(fs)):
+        g = fs[gi]
         if g['inc'] != '1':
             continue
         rm = dict(kvp.split('>') for kvp in (g['drm'].split(',') if g['drm'] != '-' else []))
-        if {rm.get(t, t) for t in g['in'].split(',') if t != '-'} & outs:
-            return False
+        for t in {rm.get(t, t) for t in g['in'].split(',') if t != '-'} & outs:
+            # g takes a type the wrapper hands to inner(): it receives the wrapper's value unless a provider in between supplies it again
+            if not any(h['inc'] == '1' and t in h['out'].split(',') for h in fs[idx + 1:gi]):
+                return False
     return True
 
 
